@@ -1040,11 +1040,13 @@ namespace BitSerializer::Convert::Utf
 			assert(mStartDataPtr <= mEndDataPtr);
 			if (mInputStream.eof())
 			{
-				// Handle uncompleted sequence at the end of file
-				if (result.ErrorCode == UtfEncodingErrorCode::UnexpectedEnd && Detail::HandleEncodingError(outStr, mEncodingErrorPolicy, mErrorMark))
+				// Handle uncompleted sequence at the end of file (including a part of code unit when number of bytes is not a multiple of its size)
+				const bool isCroppedEnd = result.ErrorCode == UtfEncodingErrorCode::UnexpectedEnd
+					|| (result.ErrorCode == UtfEncodingErrorCode::Success && mStartDataPtr != mEndDataPtr);
+				if (isCroppedEnd)
 				{
 					mStartDataPtr = mEndDataPtr = mEncodedBuffer;
-					return EncodedStreamReadResult::Success;
+					return Detail::HandleEncodingError(outStr, mEncodingErrorPolicy, mErrorMark) ? EncodedStreamReadResult::Success : EncodedStreamReadResult::DecodeError;
 				}
 				return result.ErrorCode == UtfEncodingErrorCode::Success ? EncodedStreamReadResult::Success : EncodedStreamReadResult::DecodeError;
 			}
@@ -1052,7 +1054,7 @@ namespace BitSerializer::Convert::Utf
 			return result.ErrorCode == UtfEncodingErrorCode::Success || result.ErrorCode == UtfEncodingErrorCode::UnexpectedEnd ? EncodedStreamReadResult::Success : EncodedStreamReadResult::DecodeError;
 		}
 
-		UtfType mUtfType;
+		UtfType mUtfType = UtfType::Utf8;
 		std::istream& mInputStream;
 		UtfEncodingErrorPolicy mEncodingErrorPolicy;
 		const TTargetCharType* mErrorMark;
